@@ -125,6 +125,19 @@ func TypeEnv(env map[string]*model.Type) *types.Env {
 	return te
 }
 
+// TypeEnvShared is TypeEnv with identical (same written order) composite sub-terms being ONE
+// *types.Type object, within a binding and across bindings - what a host that declares its
+// schema from shared type values builds.
+func TypeEnvShared(env map[string]*model.Type) *types.Env {
+	te := types.NewEnv()
+	c := NewTyCtx()
+	c.Share = true
+	for _, n := range sortedKeys(env) {
+		te.Put(n, c.To(env[n]))
+	}
+	return te
+}
+
 func (en *Engine) ValEnv(env map[string]*model.Val) *val.Env {
 	ve := val.NewEnv()
 	for _, n := range sortedValKeys(env) {
